@@ -9,7 +9,7 @@ EXPLANATION = (
     "the decoder's Representation::load agrees with section 6 on all 256 first bytes (exhaustive abstract interpretation) "
     "and reads each representation with the matching prefix; sensitive values use the never-indexed form; R3: a size "
     "change is signalled before any field, each signal is paired with the resize, min before max, within the allowance; "
-    "R4: a header block is HPACK-encoded once (CONTINUATION only copies bytes); R5: the Huffman ENCODE_TABLE equals "
+    "R6: Encoder::update_max_size, which only compares its integers, is evaluated for every weak ordering of (new size, pending sizes, table size): the last size to be signalled is always the requested one and the minimum since the last block is signalled first; R7/R8: the decoder's and the encoder's dynamic tables store an entry iff size + len <= max_size, evict exactly while size > max_size and keep their size accounting paired with every insertion and eviction, so both ends drop the same entries; R4: a header block is HPACK-encoded once (CONTINUATION only copies bytes); R5: the Huffman ENCODE_TABLE equals "
     "Appendix B on all 257 rows. decode(encode(h)) = h is NOT decided."
 )
 NOT_DECIDED = "decode(encode(h)) = h; consistency of the robin-hood index under eviction; that the dynamic table size never exceeds the limit"
@@ -25,6 +25,12 @@ def run(ctx):
     hpackrules.decoder_prefixes(r, F)
     r = ctx.rule('C10.R3', 'GUARD', 'a table size change is signalled first, paired with the resize, within the allowance')
     hpackrules.size_update_order(r, F)
+    r = ctx.rule('C10.R6', 'TSTATE', 'pending size updates: after update_max_size the final signalled size is the requested one and the minimum is signalled first (all orderings)')
+    hpackrules.size_update_schedule(r, F)
+    r = ctx.rule('C10.R7', 'PAIR', 'decoder dynamic table follows RFC 7541 §4.4: accounting paired, store iff size+len <= max, evict while > max (= C11.R6)')
+    hpackrules.table_accounting(r, F)
+    r = ctx.rule('C10.R8', 'PAIR', 'encoder dynamic table: same eviction boundary and paired accounting as the decoder table')
+    hpackrules.encoder_table_accounting(r, F)
     r = ctx.rule('C10.R4', 'WHO', 'a header block is HPACK-encoded once')
     hpackrules.encode_once(r, F)
     r = ctx.rule('C10.R5', 'TABLE', 'Huffman ENCODE_TABLE = RFC 7541 Appendix B (257 rows)')
